@@ -54,10 +54,9 @@ impl<T: Debug> WorkStealQueue<T> {
 
     /// Push an element to the global queue.
     pub fn push(&self, item: T) {
+        //add count first, so that the count never lags behind the items
+        _ = self.len.fetch_add(1, Ordering::Release);
         self.shared_queue.push(item);
-        //add count
-        self.len
-            .store(self.len().saturating_add(1), Ordering::Release);
     }
 
     /// Pop an element from the global queue.
@@ -70,8 +69,7 @@ impl<T: Debug> WorkStealQueue<T> {
             match self.shared_queue.steal() {
                 Steal::Success(item) => {
                     // Decrement the count.
-                    self.len
-                        .store(self.len().saturating_sub(1), Ordering::Release);
+                    _ = self.len.fetch_sub(1, Ordering::Release);
                     return Some(item);
                 }
                 Steal::Retry => {}
